@@ -23,6 +23,7 @@ func init() {
 			"C14.7 a retry carries the new nonce: every function run as one attempt of such a loop reads the allocation's nonce on every path to its PerformTransaction (helpers inlined), so a request built once outside the loop is reported; " +
 			"C14.6 the fire-and-forget Refresh(0) of Close leaves the transaction table only through its armed timer (shared rule C12.1); " +
 			"C14.8 (=C13.8) a binding is marked refreshed only after the server confirmed a ChannelBind, so steady traffic cannot postpone the periodic re-bind; " +
+			"C14.9 a binding found new or due is always sent: every path of maybeBind that moves the binding to the request/refresh state starts a ChannelBind attempt (no gate defers it to a later check); " +
 			"C14.5 a duplicated or late response (no pending transaction) does not end the client's read loop: handleSTUNMessage returns nil for it; " +
 			"C14.4 the first-close path of UDPConn.Close and TCPAllocation.Close calls refreshAllocation with the constant lifetime 0, and refreshAllocation reaches PerformTransaction on every path that returns nil.",
 		NotCovered: "liveness over hours and under loss schedules, server configurations other than the defaults, nonce expiry timing — the bulk of this property is not applicable to static analysis.",
@@ -303,7 +304,7 @@ func runC14(c *Ctx) {
 					ex, ok := v.(*ssa.Extract)
 					return ok && ex.Tuple == ssa.Value(call)
 				}
-				if w.dependsOn(last, isCall, caller) {
+				if w.dependsOn(last, isCall, caller) && w.errIdentityFlows(last, isCall, 0, map[ssa.Value]bool{}) {
 					return true
 				}
 			}
@@ -605,6 +606,7 @@ func runC14(c *Ctx) {
 	ruleTransactionPairing(c, "C14.6")
 	// ---- C14.8: a binding's refresh timestamp moves only on a confirmed bind
 	ruleBindingFreshness(c, "C14.8")
+	ruleDueBindingIsSent(c, "C14.9")
 
 	// ---- C14.4
 	c.Rule("C14.4", "release on Close: in UDPConn.Close every path past the already-closed return, and in TCPAllocation.Close every path, ends by calling refreshAllocation(0, …) with the constant lifetime 0; in refreshAllocation every return of a nil error is preceded on all paths by the PerformTransaction call", 3)
@@ -763,4 +765,191 @@ func defaultOfOr(w *World, v ssa.Value) (int64, bool) {
 		return 0, false
 	}
 	return constInt(els[len(els)-1])
+}
+
+// errIdentityFlows: the error value v IS (in the sense of errors.Is) a value satisfying src:
+// the value itself, a phi or local variable that can hold it, a fmt.Errorf that wraps it with
+// %w, an errors.Join over it, or a module helper that hands one of its arguments on in such a
+// way. Formatting it with %s/%v, or taking its Error() text, loses the identity.
+func (w *World) errIdentityFlows(v ssa.Value, src func(ssa.Value) bool, depth int, seen map[ssa.Value]bool) bool {
+	if v == nil || depth > 6 || seen[v] {
+		return false
+	}
+	seen[v] = true
+	if src(v) {
+		return true
+	}
+	switch x := v.(type) {
+	case *ssa.MakeInterface:
+		return w.errIdentityFlows(x.X, src, depth, seen)
+	case *ssa.ChangeInterface:
+		return w.errIdentityFlows(x.X, src, depth, seen)
+	case *ssa.ChangeType:
+		return w.errIdentityFlows(x.X, src, depth, seen)
+	case *ssa.Phi:
+		for _, e := range x.Edges {
+			if w.errIdentityFlows(e, src, depth, seen) {
+				return true
+			}
+		}
+	case *ssa.UnOp:
+		if x.Op == token.MUL {
+			if _, isAl := x.X.(*ssa.Alloc); isAl {
+				for _, st := range w.stores[w.locKey(x.X)] {
+					if st.Parent() == x.Parent() && w.errIdentityFlows(st.Val, src, depth, seen) {
+						return true
+					}
+				}
+			}
+		}
+	case *ssa.Extract:
+		if call, ok := x.Tuple.(*ssa.Call); ok {
+			return w.errIdentityThroughCall(call, x.Index, src, depth, seen)
+		}
+	case *ssa.Call:
+		return w.errIdentityThroughCall(x, 0, src, depth, seen)
+	}
+	return false
+}
+
+func (w *World) errIdentityThroughCall(call *ssa.Call, idx int, src func(ssa.Value) bool, depth int, seen map[ssa.Value]bool) bool {
+	switch stdCallee(&call.Call) {
+	case "fmt.Errorf":
+		if len(call.Call.Args) != 2 {
+			return false
+		}
+		format, ok := call.Call.Args[0].(*ssa.Const)
+		if !ok || format.Value == nil || format.Value.Kind() != constant.String {
+			return false
+		}
+		verbs := formatVerbs(constant.StringVal(format.Value))
+		els := variadicElemsOrdered(call.Call.Args[1])
+		for i, e := range els {
+			if i < len(verbs) && verbs[i] == 'w' && w.errIdentityFlows(e, src, depth+1, seen) {
+				return true
+			}
+		}
+		return false
+	case "errors.Join":
+		if len(call.Call.Args) == 1 {
+			for _, e := range variadicElemsOrdered(call.Call.Args[0]) {
+				if w.errIdentityFlows(e, src, depth+1, seen) {
+					return true
+				}
+			}
+		}
+		return false
+	}
+	h := call.Call.StaticCallee()
+	if h == nil || !w.IsMod[h] || len(h.Blocks) == 0 {
+		return false
+	}
+	// a module helper that hands one of its (error) arguments on
+	for j, a := range call.Call.Args {
+		if j >= len(h.Params) || !w.errIdentityFlows(a, src, depth+1, seen) {
+			continue
+		}
+		p := h.Params[j]
+		for _, r := range returnsOf(h) {
+			if idx < len(r.Results) && w.errIdentityFlows(r.Results[idx], func(v ssa.Value) bool { return v == ssa.Value(p) }, depth+1, map[ssa.Value]bool{}) {
+				return true
+			}
+		}
+	}
+	return false
+}
+
+// formatVerbs: the verb letters of a Printf-style format, one per operand consumed (%% and
+// explicit argument indexes are not used in this module's error formats).
+func formatVerbs(f string) []byte {
+	var out []byte
+	for i := 0; i < len(f); i++ {
+		if f[i] != '%' {
+			continue
+		}
+		i++
+		for i < len(f) && strings.IndexByte("+-# 0123456789.", f[i]) >= 0 {
+			i++
+		}
+		if i < len(f) && f[i] != '%' {
+			out = append(out, f[i])
+		}
+	}
+	return out
+}
+
+// ruleDueBindingIsSent (C14.9): once a binding has been moved to the "request" or "refresh"
+// state — it was found new, or due for its periodic refresh — a ChannelBind attempt is
+// started on every path before the function returns. A path that moves the state (or finds
+// the binding due) and then returns without starting the attempt — because some budget,
+// semaphore or other gate said "later" — leaves the refresh to the next periodic check, and
+// with enough peers the server's channel lifetime runs out first while the client still
+// believes the channel is bound.
+func ruleDueBindingIsSent(c *Ctx, rule string) {
+	w := c.W
+	c.Rule(rule, "a due binding is sent: on every path of UDPConn.maybeBind (helpers inlined) on which the binding's state was set to bindingStateRequest or bindingStateRefresh, a ChannelBind attempt (a call or go statement that reaches UDPConn.bind) is started before the return", 1)
+	maybe := w.Func("client", "UDPConn", "maybeBind")
+	bind := w.Func("client", "UDPConn", "bind")
+	setState := w.Func("client", "binding", "setState")
+	stReq, stRef := w.ConstInt("client", "bindingStateRequest"), w.ConstInt("client", "bindingStateRefresh")
+	c.Anchor(rule, "maybeBind")
+	reachesBind := w.mayContain(func(in ssa.Instruction) bool { return staticCallee(in) == bind })
+	isMove := func(in ssa.Instruction) bool {
+		call, ok := in.(*ssa.Call)
+		if !ok || call.Call.StaticCallee() != setState || len(call.Call.Args) < 2 {
+			return false
+		}
+		k, isK := constInt(call.Call.Args[1])
+		return isK && (k == stReq || k == stRef)
+	}
+	mayMove := w.mayContain(isMove)
+	clientPkg := w.tpkg("client").Path()
+	type st struct{ moved, started bool }
+	cfg := &ipCfg[st]{w: w, StepGo: true}
+	cfg.Inline = func(ci ssa.CallInstruction, h *ssa.Function) bool {
+		if _, isGo := ci.(*ssa.Go); isGo {
+			return false
+		}
+		return w.IsMod[h] && fnPkgPath(h) == clientPkg && (mayMove(h) || reachesBind(h)) && h != bind
+	}
+	bad := ""
+	nMoved := 0
+	cfg.Step = func(in ssa.Instruction, s st, _ *pathEnv, _ []ssa.CallInstruction) st {
+		if isMove(in) {
+			s.moved = true
+		}
+		if ci, ok := in.(ssa.CallInstruction); ok {
+			h := calleeOfCI(ci)
+			if h == nil {
+				if mc, isMC := ci.Common().Value.(*ssa.MakeClosure); isMC {
+					h = w.closureBody(mc)
+				}
+			}
+			if h != nil && (h == bind || reachesBind(h)) {
+				if _, isGo := in.(*ssa.Go); isGo || h == bind {
+					s.started = true
+				}
+			}
+		}
+		return s
+	}
+	cfg.Return = func(r *ssa.Return, s st, _ *pathEnv) {
+		if s.moved {
+			nMoved++
+			if !s.started {
+				bad = "a path that moves the binding to the request/refresh state returns at " + w.instrPos(r) + " without starting a ChannelBind attempt"
+			}
+		}
+	}
+	explorePaths(cfg, maybe, st{})
+	switch {
+	case cfg.Exhausted:
+		c.Bad(rule, fname(maybe), "maybeBind", w.pos(maybe.Pos()), "undecided: path exploration exceeded its budget")
+	case bad != "":
+		c.Bad(rule, fname(maybe), "maybeBind", w.pos(maybe.Pos()), bad+": the refresh waits for the next periodic check, and with many peers the server-side channel lifetime runs out while the client still sends ChannelData on it")
+	case nMoved == 0:
+		c.Bad(rule, fname(maybe), "maybeBind", w.pos(maybe.Pos()), "no path moves a binding to the request/refresh state: anchor gone")
+	default:
+		c.OK(rule, fname(maybe), "maybeBind", w.pos(maybe.Pos()), fmt.Sprintf("every one of the %d paths that mark the binding as being (re)bound starts the attempt", nMoved))
+	}
 }
